@@ -30,10 +30,7 @@ func genExts(r *RNG, profileKind int) (uint16, []extD) {
 		}
 		return 0x1000, exts
 	default: // legacy: one id-0 value of whole words
-		prof := uint16(r.Intn(65536))
-		if prof == 0xBEDE || prof == 0x1000 {
-			prof = 0x1234
-		}
+		prof := legacyProfile(r)
 		return prof, []extD{{0, r.Bytes(4 * r.Pick(0, 1, 1, 2, 5))}}
 	}
 }
